@@ -25,19 +25,20 @@ Definition layout (digits:list Z) (decpt0:Z) (prec:Z) (neg:bool) : list Z * bool
   let '(buf1, base) := if neg then (fst (setb buf0 0 45), 1) else (buf0, 0) in
   let '(b2,o2) := writes buf1 base (digits ++ [0]) false in
   let s := base in
-  let '(b3,o3,decpt) :=
+  (* last = index (relative to s) of the last digit once the point is in place *)
+  let '(b3,o3,decpt,last) :=
     if (1 <? decpt0) && (decpt0 <=? prec) then
       let '(b,o) := memmove b2 (s+decpt0+1) (s+decpt0) (prec+1-decpt0) o2 in
-      let '(b',o') := setb b (s+decpt0) 46 in (b', o||o', 0)
+      let '(b',o') := setb b (s+decpt0) 46 in (b', o||o', 0, prec)
     else if (-4 <? decpt0) && (decpt0 <=? 0) then
       let dp := -decpt0 + 1 in
       let '(b,o) := memmove b2 (s+dp+1) s (prec+1) o2 in
       let '(b',o') := writes b s (repeat 48 (Z.to_nat (dp+1))) o in
-      let '(b'',o'') := setb b' (s+1) 46 in (b'', o'||o'', 0)
+      let '(b'',o'') := setb b' (s+1) 46 in (b'', o'||o'', 0, prec + dp)
     else
       let '(b,o) := memmove b2 (s+2) (s+1) (prec+1) o2 in
-      let '(b',o') := setb b (s+1) 46 in (b', o||o', decpt0 - 1) in
-  let '(b4,p4,o4) := trim 40 b3 (s+prec) o3 in
+      let '(b',o') := setb b (s+1) 46 in (b', o||o', decpt0 - 1, prec) in
+  let '(b4,p4,o4) := trim 40 b3 (s+last) o3 in
   let '(b5,p5,o5) := if getb b4 p4 =? 46 then let '(b,o) := setb b4 p4 0 in (b, p4-1, o4||o) else (b4,p4,o4) in
   let '(b6,o6) :=
     if decpt =? 0 then (b5,o5) else
